@@ -85,23 +85,23 @@ def r1_stage_order(ctx) -> None:
     r, prog = ctx.r, ctx.prog
     r.rule("C14.R1", "stage order: convert() initialises the pipeline unconditionally before anything else and finalises once after all rules; convert_rule applies the pipeline before any condition is converted, finishes before it finalises; finalize_query ends in postprocess_query, finalize in the pipeline's finalizers; both iterate their lists in order")
     cv = prog.func(BK + ".convert")
-    init = _calls(cv, "self.init_processing_pipeline")
-    if len(init) == 1 and not [g for g in guards_at(prog, cv, init[0])]:
-        rest = [c for c in walk_no_nested(cv.node) if isinstance(c, ast.Call) and c is not init[0] and call_name(c).startswith(("self.convert", "self.finalize", "rule_collection."))]
-        if _dominates(prog, cv, init, rest):
-            r.ok("C14.R1", cv.qual, "init_processing_pipeline(output_format) unconditionally, before resolution, conversion and finalisation", f"{cv.module.relpath}:{init[0].lineno}")
+    # Backend.convert interpreted (sa.tabulate, Proxy) on a stand-in collection: the order of the recorded calls
+    from .standins import run_backend_convert
+    for fmt, reused in ((None, False), ("other", False), (None, True), ("other", True)):
+        o = run_backend_convert(ctx, fmt=fmt, reused=reused)
+        kinds = [t[0] for t in o.trace]
+        what = f"convert(collection, output_format={fmt!r})" + (" on a backend that converted before" if reused else "")
+        if o.raised is not None:
+            raise AnalysisError(f"{cv.qual}: {what} raises {o.raised} on the stand-in collection")
+        if kinds and kinds[0] == "init" and kinds.count("init") >= 1 and o.trace[0] == ("init", fmt):
+            r.ok("C14.R1", cv.qual, f"{what}: init_processing_pipeline(output_format) unconditionally, before resolution, conversion and finalisation", cv.loc)
         else:
-            r.violation("C14.R1", cv.qual, short(init[0]), "pipeline initialisation does not precede every conversion step", f"{cv.module.relpath}:{init[0].lineno}")
-    else:
-        r.violation("C14.R1", cv.qual, "self.init_processing_pipeline(output_format)",
-                    "convert() does not rebuild the combined pipeline unconditionally: a backend object reused with another output format or another user pipeline keeps running the stale combination (backend + user + *previous* format pipeline)",
-                    f"{cv.module.relpath}:{init[0].lineno}" if init else cv.loc)
-    fin = _calls(cv, "self.finalize")
-    comps = [n for n in walk_no_nested(cv.node) if isinstance(n, ast.ListComp)]
-    if len(fin) == 1 and comps and fin[0].lineno > comps[0].end_lineno and isinstance(prog.enclosing_stmt(fin[0]), ast.Return):
-        r.ok("C14.R1", cv.qual, "finalize(queries, ...) once, after all rules, as the result", f"{cv.module.relpath}:{fin[0].lineno}")
-    else:
-        r.violation("C14.R1", cv.qual, "return self.finalize(queries, ...)", "finalizers are not run exactly once on the complete query list", cv.loc)
+            r.violation("C14.R1", cv.qual, f"self.init_processing_pipeline(output_format): call order {kinds[:4]}…",
+                        "convert() does not rebuild the combined pipeline unconditionally before anything else: a backend object reused with another output format or another user pipeline keeps running the stale combination (backend + user + *previous* format pipeline)", cv.loc)
+        if kinds.count("finalize") == 1 and kinds[-1] == "finalize" and o.ret is not None and o.ret[0] == "FINAL" and o.trace[-1][2] == (fmt or "default"):
+            r.ok("C14.R1", cv.qual, f"{what}: finalize(queries, format) once, after all rules, as the result", cv.loc)
+        else:
+            r.violation("C14.R1", cv.qual, f"return self.finalize(queries, ...): call order …{kinds[-3:]}", "finalizers are not run exactly once on the complete query list, after all rules, with the requested format", cv.loc)
     cr = prog.func(BK + ".convert_rule")
     ap = _calls(cr, "self.last_processing_pipeline.apply")
     cc = _calls(cr, "self.convert_condition")
